@@ -15,6 +15,7 @@ type c09PwCase struct {
 	Pw   string `json:"pw"`
 	Addr string `json:"addr"`
 	Ref  bool   `json:"ref"`
+	Must bool   `json:"must"` // false: a grant is permitted by the Ref but not demanded (listed IPv6 source)
 }
 
 type c09PwMeta struct {
@@ -33,11 +34,11 @@ func TestC09Password(t *testing.T) {
 	vInit("none")
 	var cases []c09PwCase
 	vReadJSON(t, "VERIF_CASES", &cases)
-	ips := map[string]string{"ip1": "127.0.0.1", "ip2": "10.1.2.3", "ip1x": "127.0.0.10", "ipz": "192.168.7.7"}
+	ips := map[string]string{"ip1": "127.0.0.1", "ip2": "10.1.2.3", "ip1x": "127.0.0.10", "ipz": "192.168.7.7", "ip6l": "[2001:db8::7]", "ip6u": "[2001:db8::99]"}
 	users := map[string]string{"health": config.HealthUser, "schedule": config.ScheduleUser, "continuous": config.ContinuousUser, "other": "alice"}
 	pws := map[string]string{"HEALTHPW": config.HealthUser, "job1": "nightly-errors", "job2": "weekly report", "job3": "watch-oom", "jobX": "shared name", "wrong": "letmein", "": ""}
 	var j1, j2, jx config.Scheduled
-	j1.Name, j1.AllowFrom, j1.Enable = pws["job1"], []string{ips["ip1"]}, true
+	j1.Name, j1.AllowFrom, j1.Enable = pws["job1"], []string{ips["ip1"], "2001:db8::7"}, true
 	j2.Name, j2.AllowFrom, j2.Enable = pws["job2"], []string{ips["ip2"], ips["ip1"]}, true
 	jx.Name, jx.AllowFrom, jx.Enable = pws["jobX"], []string{ips["ip2"]}, true
 	var j3, jy config.Continuous
@@ -55,7 +56,7 @@ func TestC09Password(t *testing.T) {
 		for _, port := range []string{"40001", "1", "65000"} {
 			_, err := s.Callback(c09PwMeta{users[c.User], ips[c.Addr] + ":" + port}, []byte(pws[c.Pw]))
 			granted := err == nil
-			if granted != c.Ref {
+			if (granted && !c.Ref) || (c.Must && granted != c.Ref) {
 				bads = append(bads, bad{c, granted})
 				break
 			}
@@ -75,7 +76,7 @@ func TestC09Password(t *testing.T) {
 			s2.Callback(c09PwMeta{users[a.User], ips[a.Addr] + ":40001"}, []byte(pws[a.Pw]))
 			_, err := s2.Callback(c09PwMeta{users[c.User], ips[c.Addr] + ":40002"}, []byte(pws[c.Pw]))
 			pairs++
-			if (err == nil) != c.Ref && len(bads2) < 20 {
+			if (((err == nil) && !c.Ref) || (c.Must && (err == nil) != c.Ref)) && len(bads2) < 20 {
 				bads2 = append(bads2, bad2{a, c, err == nil})
 			}
 		}
